@@ -1,10 +1,13 @@
 #!/bin/bash
-# usage: tools/seedrun.sh <seeded-dir> <prop> [<prop> ...] : apply the seeded patch to /repo, run the checks, undo it.
+# usage: tools/seedrun.sh <seeded-dir> <prop> [<prop> ...]
+# Applies the seeded patch to a scratch worktree of /repo (outside /repo and /verif), runs the checks against it via
+# VERIF_REPO, and removes the worktree.  /repo itself is not touched.
 d="$(cd "$1" && pwd)"; shift
-if [ -n "$(git -C /repo status --porcelain --untracked-files=no)" ]; then echo "/repo has uncommitted changes" >&2; exit 9; fi
-git -C /repo apply "$d/patch.diff" || exit 9
-trap 'git -C /repo checkout -- .' EXIT
+wt="$(mktemp -d /tmp/seedwt.XXXXXX)"; rmdir "$wt"
+git -C /repo worktree add -q "$wt" HEAD || exit 9
+trap 'git -C /repo worktree remove --force "$wt" >/dev/null 2>&1; git -C /repo worktree prune' EXIT
+git -C "$wt" apply "$d/patch.diff" || { echo "patch does not apply"; exit 9; }
 for p in "$@"; do
-  /verif/vcheck "$p" --tier "${TIER:-quick}" 2>&1 | grep -E "^\[|VIOLATION|MACHINERY|UNDECIDED" | cut -c1-260 | head -8
+  VERIF_REPO="$wt" /verif/vcheck "$p" --tier "${TIER:-quick}" 2>&1 | grep -E "^\[|VIOLATION|MACHINERY|KNOWN|UNDECIDED" | cut -c1-230 | head -${LINES_MAX:-6}
   echo "exit($p)=${PIPESTATUS[0]}"
 done
